@@ -711,14 +711,17 @@ theorem tx_success_conserves (ops : List Op) (s : St) (r : Nat) (h : runTx ops =
 
 /-! ### Non-vacuity -/
 
+/-- the failure of a run, if any (the state contains functions, so outcomes are compared through this) -/
+def errOf (x : Except Err St) : Option Err := match x with | .error e => some e | .ok _ => none
+
 -- withdraw 10, take 4 into a named bucket, return it, deposit everything: succeeds, totals conserved
 example : (runTx [.withdraw 0 (10 * unitA), .take 0 (4 * unitA), .ret 0, .depositAll]).toOption.isSome = true := by decide
 -- leaving the named bucket behind fails (`OrphanedNodes`), leaving funds on the worktop fails
-example : runTx [.withdraw 0 (10 * unitA), .take 0 (4 * unitA), .depositAll] = .error .orphaned := by decide
-example : runTx [.withdraw 0 (10 * unitA)] = .error .dropNonEmpty := by decide
+example : errOf (runTx [.withdraw 0 (10 * unitA), .take 0 (4 * unitA), .depositAll]) = some .orphaned := by decide
+example : errOf (runTx [.withdraw 0 (10 * unitA)]) = some .dropNonEmpty := by decide
 -- use after consume
-example : runTx [.withdraw 0 (10 * unitA), .takeAll 0, .deposit 0, .deposit 0] = .error (.bucketNotFound 0) := by decide
+example : errOf (runTx [.withdraw 0 (10 * unitA), .takeAll 0, .deposit 0, .deposit 0]) = some (.bucketNotFound 0) := by decide
 -- exact-balance take moves the bucket; the assertion then sees an empty worktop
-example : runTx [.withdraw 0 (10 * unitA), .take 0 (10 * unitA), .assertAny 0] = .error .worktopAssertion := by decide
+example : errOf (runTx [.withdraw 0 (10 * unitA), .take 0 (10 * unitA), .assertAny 0]) = some .worktopAssertion := by decide
 
 end Radix.Res
